@@ -154,6 +154,37 @@ func init() {
 		b, _ := json.Marshal(rec)
 		fmt.Println(string(b))
 	}
+	// several compilations in ONE process, in a given order (each dimension twice): digests must equal those of fresh processes
+	commands["art-build-seq"] = func(args []string) {
+		var c struct {
+			Dims [][]interface{} `json:"dims"` // [mode, depth, batch]
+		}
+		loadCases(args, &c)
+		for rep := 0; rep < 2; rep++ {
+			for _, d := range c.Dims {
+				mode, depth, batch := d[0].(string), uint32(d[1].(float64)), uint32(d[2].(float64))
+				rec := map[string]interface{}{"event": "build", "mode": mode, "depth": depth, "batch": batch, "path": "r1cs-same-process", "procs": runtime.GOMAXPROCS(0), "pid": os.Getpid(),
+					"digest": "", "nbPublic": -1, "nbSecret": -1, "err": ""}
+				var cs constraint.ConstraintSystem
+				var err error
+				if mode == "insertion" {
+					cs, err = prover.BuildR1CSInsertion(depth, batch)
+				} else {
+					cs, err = prover.BuildR1CSDeletion(depth, batch)
+				}
+				if err != nil {
+					rec["err"] = firstLine(err.Error())
+				} else {
+					rec["digest"] = digestCS(cs)
+					rec["nbPublic"] = cs.GetNbPublicVariables() - 1
+					rec["nbSecret"] = cs.GetNbSecretVariables()
+					rec["nbConstraints"] = cs.GetNbConstraints()
+				}
+				b, _ := json.Marshal(rec)
+				fmt.Println(string(b))
+			}
+		}
+	}
 	commands["art-solidity"] = func(args []string) {
 		var c struct {
 			CLI  string `json:"cli"`
